@@ -75,7 +75,7 @@ def gen_routing(tier, wd, seed):
     return path, runs, st, n
 
 
-DD_PROPS = ("C06", "C07", "C08", "C09", "C10", "C11", "C12", "C13", "C15", "C19")
+DD_PROPS = ("C06", "C07", "C08", "C09", "C10", "C11", "C12", "C13", "C15", "C16", "C19")
 
 
 def dd_part(prop, tier, wd, seed, path):
@@ -97,7 +97,7 @@ def run(prop, tier, seed, replay=None):
         rp = json.load(open(replay))
         if rp["instance"].get("dd"):
             inp = os.path.join(wd, "replay.ndjson")
-            core.write_lines(inp, [] if "gamma" in rp["instance"] else [rp["instance"]["line"]])
+            core.write_lines(inp, [] if ("gamma" in rp["instance"] or "matrix" in rp["instance"]) else [rp["instance"]["line"]])
             s = core.mt("replay-dd", inp, os.path.join(wd, "sum.json"), rp.get("seed", seed), {"base_idx": rp["instance"].get("idx", 0), "points": 12})
             bad = [v for v in s["violations"] if v["property"] == prop]
             print(("VIOLATION property=%s replay=%s" % (prop, replay)) if bad else ("OK property=%s (replay)" % prop))
